@@ -2,9 +2,10 @@
    resolvers / re_* / first_* are regenerated from lib/yaml/resolver.py on every run (Gen/GenRegex.v); `matches` is the
    derivative matcher of Model/Regex.v whose agreement with the denotational `lang` is proved (matches_ok); inclusion and
    emptiness are decided by the certified procedure of Proofs/RegexDec.v (all strings, no length bound). *)
-From Coq Require Import List NArith Bool String.
+From Coq Require Import List NArith ZArith Bool String.
 Import ListNotations.
 Require Import Regex RegexDec GenRegex Yaml11Types Scan Parse Construct C08Lemmas.
+Require Construct Represent IntRoundTrip.
 Open Scope N_scope.
 
 (* KIND C08_index_complete : D *)
@@ -60,3 +61,16 @@ Eval vm_compute in "ASSUME:C08_timestamp_regexps_agree"%string. Print Assumption
 (* FULL converter totality for int is false on the pinned tree: "0x_" is an int by the rules but int("0x") raises *)
 Example C08_int_converter_total_refuted : matches re_int [48;120;95] = true /\ matches int_convertible [48;120;95] = false.
 Proof. exact l_int_converter_total_refuted. Qed.
+(* KIND C08_int_roundtrip : U *)
+(* EVERY integer the representer model writes (every z whose decimal form has at most 4300 digits - CPython's limit: beyond it str(int) refuses and
+   the model's int_text returns None) is read back by the constructor model's construct_yaml_int as the same integer: sign, no leading zero, no
+   octal / sexagesimal / underscore reading of a decimal text (Proofs/IntRoundTrip.v) *)
+Theorem C08_int_roundtrip : forall z t, Represent.int_text z = Some t -> Construct.construct_int t = Construct.COk z.
+Proof. exact IntRoundTrip.int_text_roundtrip. Qed.
+Eval vm_compute in "ASSUME:C08_int_roundtrip"%string. Print Assumptions C08_int_roundtrip.
+(* KIND C08_int_examples : F *)
+Example C08_int_examples : Represent.int_text (-12345678901234567890)%Z = Some [45; 49; 50; 51; 52; 53; 54; 55; 56; 57; 48; 49; 50; 51; 52; 53; 54; 55; 56; 57; 48]%N /\
+  Construct.construct_int [45; 49; 50; 51; 52; 53; 54; 55; 56; 57; 48; 49; 50; 51; 52; 53; 54; 55; 56; 57; 48]%N = Construct.COk (-12345678901234567890)%Z /\ Represent.int_text 0%Z = Some [48%N].
+Proof. exact IntRoundTrip.int_examples. Qed.
+
+
